@@ -177,10 +177,10 @@ class TcpConnection():
                                      f"{sent} bytes in _send_buffer")
             
             except BlockingIOError:
-                tcp_connection.exception(f"[Socket-{self.sock_id}] An error "\
-                                         f"has occurred")
-
-                self._stop_threads = True
+                #: The socket cannot take more bytes right now: what is left 
+                #: in _send_buffer is written on the next EVENT_WRITE.
+                tcp_connection.debug(f"[Socket-{self.sock_id}] Socket is "\
+                                     f"not ready for writing yet")
                 
             else:
                 self._send_buffer = self._send_buffer[sent:]
@@ -281,10 +281,10 @@ class SctpConnection(TcpConnection):
                                      f"{sent} bytes in _send_buffer")
 
             except BlockingIOError:
-                tcp_connection.exception(f"[Socket-{self.sock_id}] An error "\
-                                         f"has occurred")
-
-                self._stop_threads = True
+                #: The socket cannot take more bytes right now: what is left 
+                #: in _send_buffer is written on the next EVENT_WRITE.
+                tcp_connection.debug(f"[Socket-{self.sock_id}] Socket is "\
+                                     f"not ready for writing yet")
 
             else:
                 self._send_buffer = self._send_buffer[sent:]
